@@ -183,7 +183,13 @@ def rx_shape(p):
 _FL = {'Set': ('setSlice', 'attr'), 'SetSlice': ('setSlice', 'list'), 'SetIndex': ('setIndex', 'list'),
        'Append': ('append', 'list'), 'Extend': ('extend', 'list'), 'Iadd': ('extend', 'list'),
        'Del': ('del', 'list'), 'Clear': ('clear', 'list'), 'SetSelf': ('assignSelf', 'attr'),
-       'SliceSelf': ('assignSelf', 'list'), 'IaddAttr': ('iaddAttr', 'attr')}
+       'SliceSelf': ('assignSelf', 'list'), 'IaddAttr': ('iaddAttr', 'attr'),
+       # the remaining in-place edits: MonitoredList.insert / reverse, MutableSequence.pop / remove
+       # (built on __getitem__, index() and __delitem__), `del lst[a:b]`
+       'Insert': ('insert', 'list'), 'Pop': ('pop', 'list'), 'Remove': ('remove', 'list'),
+       'DelSlice': ('delSlice', 'list'), 'Reverse': ('reverse', 'list')}
+INDEX_OPS = tuple(kind + sfx for kind in ('glob', 'rx') for sfx in ('SetIndex', 'Pop'))      # may raise IndexError
+REMOVE_OPS = ('globRemove', 'rxRemove')                                                         # may raise ValueError
 FLIST_OPS = {kind + suffix: (kind, suffix) for kind in ('glob', 'rx') for suffix in _FL}
 RX_OPS = tuple(k for k in FLIST_OPS if k.startswith('rx'))
 
@@ -201,14 +207,16 @@ def flist(op):
     many, one = ('gs', 'g') if kind == 'glob' else ('ps', 'p')
     if o in ('setSlice', 'extend', 'iaddAttr'):
         f['vs'] = [v for v in op[many]]
-    if o in ('setIndex', 'append'):
+    if o in ('setIndex', 'append', 'insert', 'remove'):
         f['v'] = op[one]
     if suffix == 'Set':
         f['a'], f['b'] = 0, None
-    elif suffix == 'SetSlice':
+    elif suffix in ('SetSlice', 'DelSlice'):
         f['a'], f['b'] = op['a'], op.get('b')
-    if o in ('setIndex', 'del'):
+    if o in ('setIndex', 'del', 'insert'):
         f['i'] = op['i']
+    if o == 'pop':
+        f['i'] = op.get('i')              # None: `lst.pop()`
     return f
 
 
@@ -240,6 +248,8 @@ def to_driver(op):
     for key in ('a', 'b', 'i'):
         if key in f:
             d[key] = f[key]
+    if f['o'] == 'pop' and f['i'] is None:
+        d['i'] = -1                       # MutableSequence.pop(self, index=-1)
     bad = [x for x in d.get('vs', []) + ([d['v']] if 'v' in d else []) if x[0] == 'other']
     assert not bad, 'pattern outside the shapes of the model: %r' % (bad,)
     return d
@@ -301,6 +311,29 @@ def ref_list(pre, f, valid=lambda v: True):
         return [], 'ok'
     if o == 'assignSelf':
         return dedup_first(l), 'ok'
+    if o == 'insert':
+        if not valid(f['v']):
+            return l, 're.error'
+        if f['v'] not in l:
+            l.insert(f['i'], f['v'])
+        return l, 'ok'
+    if o == 'pop':
+        try:
+            l.pop() if f['i'] is None else l.pop(f['i'])
+        except IndexError:
+            return list(pre), 'IndexError'
+        return l, 'ok'
+    if o == 'remove':
+        if f['v'] not in l:
+            return l, 'ValueError'
+        l.remove(f['v'])
+        return l, 'ok'
+    if o == 'delSlice':
+        del l[f['a']:f['b']]
+        return l, 'ok'
+    if o == 'reverse':
+        l.reverse()
+        return l, 'ok'
     raise AssertionError(o)
 
 
@@ -364,6 +397,22 @@ def do_flist(t, f, held):
             del lst[f['i'] % len(lst)]
     elif suffix == 'Clear':
         lst.clear()
+    elif suffix == 'Insert':
+        lst.insert(f['i'], _raw(f, f['v']))
+    elif suffix == 'Pop':
+        if f['i'] is None:
+            lst.pop()
+        else:
+            lst.pop(f['i'])
+    elif suffix == 'Remove':
+        # remove() does not coerce: a regex list is searched for the compiled pattern (a text that
+        # does not compile cannot be in the list and is handed over as it is)
+        v = _raw(f, f['v'])
+        lst.remove(re.compile(v) if f['kind'] == 'rx' and rx_valid(v) else v)
+    elif suffix == 'DelSlice':
+        del lst[f['a']:f['b']]
+    elif suffix == 'Reverse':
+        lst.reverse()
     else:
         raise AssertionError(suffix)
 
@@ -605,7 +654,8 @@ def filter_codes(op, res, pre, obs, tree):
             dev.append('pieces-survived-content-change')
     f = flist(op)
     if f is not None:
-        bad = [p for p in op_patterns(op) if not rx_valid(p)]
+        # remove() compares with the stored items and never compiles its argument
+        bad = [p for p in op_patterns(op) if not rx_valid(p)] if f['o'] != 'remove' else []
         if bad and res != 're.error':
             dev.append('invalid-regex-not-rejected')
         if not bad and res == 're.error':
@@ -618,6 +668,10 @@ def filter_codes(op, res, pre, obs, tree):
                 dev.append('index-out-of-range-not-rejected')
             if outcome != 'IndexError' and res == 'IndexError':
                 dev.append('index-in-range-rejected')
+            if outcome == 'ValueError' and res != 'ValueError':
+                dev.append('removal-of-absent-item-not-rejected')
+            if outcome != 'ValueError' and res == 'ValueError':
+                dev.append('removal-of-present-item-rejected')
             if res == outcome:
                 # accepted: the list holds the assigned items, each once, first occurrence first;
                 # rejected: a single assignment / append leaves the list alone, extend / += keep
@@ -626,9 +680,18 @@ def filter_codes(op, res, pre, obs, tree):
                     dev.append('filter-list-differs-from-assignment')
                 if any(obs[k2] != pre[k2] for k2 in ('exGlobs', 'inGlobs', 'exRegexs', 'inRegexs') if k2 != key):
                     dev.append('other-filter-list-changed')
-            if res in ('re.error', 'IndexError') and f['o'] in ('setSlice', 'setIndex', 'append', 'assignSelf') and \
+            # an edit that raises anything but an error of the callback (a TorfError: the list is
+            # changed by then) must not have touched the torrent
+            if res != 'ok' and res not in DOCUMENTED and \
+                    f['o'] in ('setSlice', 'setIndex', 'append', 'assignSelf', 'insert', 'pop', 'remove', 'reverse',
+                               'del', 'delSlice', 'clear') and \
                     (_filters(pre) != _filters(obs) or _content(pre) != _content(obs) or pre['pieces'] != obs['pieces']):
                 dev.append('rejected-filter-assignment-changed-state')
+            # what is filtered does not depend on the order of the patterns (while the file list is
+            # the one read from the content path: the callback re-reads that path, which replaces a
+            # hand-edited file list whatever the filter edit was)
+            if f['o'] == 'reverse' and tree is not None and (pre['mode'], pre['length'], pre['files']) != (obs['mode'], obs['length'], obs['files']):
+                dev.append('reversing-a-filter-list-changed-the-file-list')
     return dev
 
 
@@ -700,14 +763,17 @@ def run_history(torf, ops, root, stop_on_deviation=True, timeout=60):
                 res = 're.error' if op['k'] in RX_OPS else 're.error-outside-regex-filter-operation'
             except IndexError as e:
                 # what `lst[i] = v` on a filter list raises for an index out of range
-                res = 'IndexError' if op['k'] in ('globSetIndex', 'rxSetIndex') else 'IndexError-outside-index-assignment'
+                res = 'IndexError' if op['k'] in INDEX_OPS else 'IndexError-outside-index-assignment'
             except RuntimeError as e:
                 res = 'RuntimeError'
+            except ValueError as e:
+                # what `lst.remove(x)` raises for an item that is not in the list
+                res = 'ValueError' if op['k'] in REMOVE_OPS else 'ValueError-outside-remove'
             except _Timeout:
                 raise
             except Exception as e:   # noqa: undocumented exception type
                 res = type(e).__name__
-            if res != 'ok' and res not in DOCUMENTED and res not in ('re.error', 'IndexError') and not res.startswith('generate-'):
+            if res != 'ok' and res not in DOCUMENTED and res not in ('re.error', 'IndexError', 'ValueError') and not res.startswith('generate-'):
                 dev.append('undocumented-exception-' + res)
             obs = project(t, root)
             dev += spec_check(torf, t, obs, root)
